@@ -40,6 +40,8 @@ inline uint64_t env_seed()
     return s ? std::strtoull(s, nullptr, 10) : 1;
 }
 
+inline bool& in_call(); // allocation monitor flag (defined below); the harness' own bookkeeping is exempt
+
 // ------------------------------------------------------------------------------------------
 // Lifetime registry
 // ------------------------------------------------------------------------------------------
@@ -77,6 +79,12 @@ struct LifeLog {
     void ev(char const* k, void const* c, void const* s, int v)
     {
         if (!enabled) { return; }
+        bool saved = in_call();
+        in_call()  = false; // the monitor's own allocations are not the library's
+        struct Restore {
+            bool v;
+            ~Restore() { in_call() = v; }
+        } restore{saved};
         json e;
         e["k"] = k;
         e["c"] = cell(c);
@@ -236,6 +244,26 @@ inline int val_of(TrackedT<M> const& t)
 template <typename T>
 inline constexpr bool is_tracked = std::is_same_v<T, Tracked> || std::is_same_v<T, TrackedMO> || std::is_same_v<T, TrackedCO>;
 
+// ---- dynamic-allocation monitor (C02): counts operator new calls made while a library call is open ----
+inline bool& in_call()
+{
+    static bool b = false;
+    return b;
+}
+inline long& allocs_in_call()
+{
+    static long n = 0;
+    return n;
+}
+struct CallWindow {
+    CallWindow()
+    {
+        allocs_in_call() = 0;
+        in_call()        = true;
+    }
+    ~CallWindow() { in_call() = false; }
+};
+
 inline void emit(json const& j) { std::cout << j.dump() << std::endl; }
 
 // read all ndjson lines of a file (or stdin when path == "-")
@@ -263,3 +291,27 @@ inline std::vector<json> read_ndjson(std::string const& path)
 }
 
 } // namespace vh
+
+// Define VH_ALLOC_MONITOR in exactly one translation unit (the driver) to replace the global allocation
+// functions: every allocation performed between CallWindow construction and destruction is counted.
+#ifdef VH_ALLOC_MONITOR
+    #include <new>
+void* operator new(std::size_t n)
+{
+    if (vh::in_call()) { ++vh::allocs_in_call(); }
+    void* p = std::malloc(n ? n : 1);
+    if (!p) { std::abort(); }
+    return p;
+}
+void* operator new[](std::size_t n)
+{
+    if (vh::in_call()) { ++vh::allocs_in_call(); }
+    void* p = std::malloc(n ? n : 1);
+    if (!p) { std::abort(); }
+    return p;
+}
+void operator delete(void* p) noexcept { std::free(p); }
+void operator delete[](void* p) noexcept { std::free(p); }
+void operator delete(void* p, std::size_t) noexcept { std::free(p); }
+void operator delete[](void* p, std::size_t) noexcept { std::free(p); }
+#endif
